@@ -204,11 +204,11 @@ def ref_domain(t, w, ctx):
     if h == "Instance":
         c = V.build_type(t[1], ctx)
         mode = int(t[3])
-        return ((t[2] == "1" and w is None) or isinstance(w, c)
+        return ((t[2] == "1" and w is None) or (w is not None and isinstance(w, c))
                 or (mode >= 1 and c is ctx.classes[2] and type(w) is ctx.classes[9])
                 or (mode == 2 and w is None))
     if h == "InstanceH":
-        return (t[2] == "1" and w is None) or isinstance(w, V.build_type(t[1], ctx))
+        return (t[2] == "1" and w is None) or (w is not None and isinstance(w, V.build_type(t[1], ctx)))
     if h == "Type":
         return (t[2] == "1" and w is None) or (isinstance(w, type) and issubclass(w, V.build_type(t[1], ctx)))
     if h == "This":
